@@ -101,21 +101,24 @@ class DSDLDefinition(ReadableDSDLFile):
         # A relative path is relative to the current working directory unless proven otherwise (see INFERENCE 3).
         resolved_dsdl_path = dsdl_path.resolve(strict=False)
         for path_to_root in valid_dsdl_roots:
-            # First we try the paths as-is...
-            try:
-                _ = dsdl_path.relative_to(path_to_root)
-            except ValueError:
-                pass
-            else:
-                return path_to_root
+            # First we try the paths as-is. This is a purely lexical comparison, which is meaningless for "." and "..".
+            if path_to_root.parts and ".." not in path_to_root.parts and ".." not in dsdl_path.parts:
+                try:
+                    _ = dsdl_path.relative_to(path_to_root)
+                except ValueError:
+                    pass
+                else:
+                    return path_to_root
             # then we try resolving both paths, which also covers an absolute target with a relative root and vice versa
+            # (a relative target is only taken relative to the working directory if it exists there; see INFERENCE 3)
             path_to_root_resolved = path_to_root.resolve(strict=False)
-            try:
-                _ = resolved_dsdl_path.relative_to(path_to_root_resolved).parent
-            except ValueError:
-                pass
-            else:
-                return path_to_root_resolved
+            if dsdl_path.is_absolute() or resolved_dsdl_path.exists():
+                try:
+                    _ = resolved_dsdl_path.relative_to(path_to_root_resolved).parent
+                except ValueError:
+                    pass
+                else:
+                    return path_to_root_resolved
 
         # INFERENCE 3: If the target is relative then we can try to find a valid root by looking for the file in the
         # root directories. This is a stronger inference than the previous one because it requires the file to exist
@@ -170,10 +173,13 @@ class DSDLDefinition(ReadableDSDLFile):
         else:
             dsdl_path_resolved = dsdl_path.resolve(strict=False)
             try:
-                # The target, taken relative to the current working directory, is located under the root, so it already
-                # contains the path to the root: use it as is.
+                # The target, taken relative to the current working directory, exists and is located under the root,
+                # so it already contains the path to the root: use it as is.
                 _ = dsdl_path_resolved.relative_to(root_path.resolve(strict=False))
+                found_as_given = dsdl_path_resolved.exists()
             except ValueError:
+                found_as_given = False
+            if not found_as_given:
                 # Otherwise the target is relative to the directory that contains the root namespace directory.
                 dsdl_path_resolved = (root_path.parent / dsdl_path).resolve(strict=False)
         return cls(dsdl_path_resolved, root_path)
